@@ -72,6 +72,23 @@ pub fn uint_at(bytes: &[u8], at: usize) -> Option<u64> {
     d.u64().ok()
 }
 
+/// blocks of the immutable-db chunk files in test_data (concatenated CBOR items), every `step`-th
+pub fn chunk_blocks(step: usize) -> Vec<Vec<u8>> {
+    let mut res = vec![];
+    for f in ["01285.chunk", "01836.chunk", "02019.chunk"] {
+        if let Ok(data) = std::fs::read(format!("{}/test_data/{}", repo_dir(), f)) {
+            let (mut at, mut k) = (0usize, 0usize);
+            while at < data.len() {
+                let Some(e) = item_end(&data, at) else { break };
+                if e <= at { break; }
+                if k % step.max(1) == 0 { res.push(data[at..e].to_vec()); }
+                at = e; k += 1;
+            }
+        }
+    }
+    res
+}
+
 pub struct RawBlock {
     pub tag: u64,
     /// span of the header item (element 0 of the inner array)
